@@ -319,3 +319,53 @@ func HarnessC09ClientStreamLimit() {
 		check(delivered == 1 && serr == nil, "a response message within the read limit is delivered")
 	}
 }
+
+// HarnessC09HandlerStreamLimit: the handler's read limit is per message, at
+// every position of a request stream: two enveloped messages of sizes N-1..N+1
+// each, sent with or without an HTTP Content-Length (a pre-built body has
+// one; its total is well above N), to a client-stream handler of each
+// protocol.  Messages within the limit are all delivered; one above it fails
+// the call and is never delivered.
+//
+//verif:harness property=C09 stubs=json,wire shard=proto:3
+func HarnessC09HandlerStreamLimit() {
+	const N = 4
+	proto := nondetChoice("proto", 3)
+	var sizes [2]int
+	var body []byte
+	for i := range sizes {
+		sizes[i] = N - 1 + nondetChoice("size", 3)
+		body = append(body, refFrame(0, make([]byte, sizes[i]))...)
+	}
+	delivered := 0
+	handler := NewClientStreamHandler("/pkg.Svc/Method", func(ctx context.Context, s *ClientStream[[]byte]) (*Response[[]byte], error) {
+		for s.Receive() {
+			check(len(*s.Msg()) <= N, "user code never receives a message above the read limit")
+			delivered++
+		}
+		if err := s.Err(); err != nil {
+			return nil, err
+		}
+		out := []byte{1}
+		return NewResponse(&out), nil
+	}, stackHandlerOptions(WithReadMaxBytes(N))...)
+	ct := []string{"application/connect+proto", "application/grpc+proto", "application/grpc-web+proto"}[proto]
+	declared := int64(-1)
+	if nondetBool("contentLength") {
+		declared = int64(len(body))
+	}
+	rec := newRecWriter()
+	req := &http.Request{Method: "POST", ProtoMajor: 2, ContentLength: declared, Header: http.Header{"Content-Type": {ct}}, Body: io.NopCloser(&wholeReader{data: body})}
+	handler.ServeHTTP(rec, req)
+	status, rh, rt, rbody := rec.finish()
+	code, wellFormed := c07ResponseCode(proto, false, status, rh, rt, rbody)
+	check(wellFormed, "the response is well-formed")
+	if sizes[0] <= N && sizes[1] <= N {
+		check(code == 0 && delivered == 2, "every message of at most N bytes is accepted, at every position in the stream and whatever the total length of the body")
+	} else {
+		check(code != 0, "a request stream with a message above the limit fails")
+		if sizes[0] > N {
+			check(delivered == 0, "nothing behind an oversize message is delivered")
+		}
+	}
+}
